@@ -1203,6 +1203,25 @@ func buildEntries() []entry {
 			return
 		}
 		n := sample(g.t, []int{2, 15, 16, 17}, "depth")
+		if rapid.Bool().Draw(g.t, "nest_in_finally") {
+			// every TRY is opened from the FINALLY block of the previous one (its handler is still on the stack, in
+			// its finally state): they count for the limit too
+			top, after, fin := p.newLabel(), p.newLabel(), p.newLabel()
+			p.pushSmall(0)
+			p.label(top)
+			p.try("-", fin)
+			p.jump(opcode.ENDTRY, after)
+			p.label(after)
+			p.pushSmall(77)
+			p.emit(opcode.RET)
+			p.label(fin)
+			p.emit(opcode.INC)
+			p.emit(opcode.DUP)
+			p.pushSmall(n)
+			p.jump(opcode.JMPLT, top)
+			p.emit(opcode.RET)
+			return
+		}
 		top, c := p.newLabel(), p.newLabel()
 		p.pushSmall(0)
 		p.label(top)
